@@ -35,6 +35,78 @@ def run(model, rep, tier):
     from . import c19
     A(c19.r1, model, rep)      # make_diag lists exactly the live components and links (index holes, edit history)
     A(del_comp_reference, model, rep, r)
+    A(config_value_truth, model, rep)
+
+
+CONFIG_REPORTS = ("phases", "params", "limits", "_pars_and_limits", "_filt_lim", "get_sys_phases")
+BOOLEAN_KEYS = {"loss"}
+
+
+def config_value_truth(model, rep):
+    """R5: a report never selects what it shows by the truth value of a configured number (0 is a configured value like any
+    other): no keyed read of a parameter / limit / phase-value registry stands as an operand of or/and/not or as a bare test"""
+    rel = model.rel("system")
+    n = 0
+    for mname in CONFIG_REPORTS:
+        fn = model.own_method("System", mname)
+        if fn is None:
+            continue
+        # names bound once to a registry (also pairwise in a tuple assignment)
+        binds = {}
+        for x in ast.walk(fn):
+            if isinstance(x, ast.Assign) and len(x.targets) == 1:
+                t, v = x.targets[0], x.value
+                pairs = list(zip(t.elts, v.elts)) if isinstance(t, ast.Tuple) and isinstance(v, ast.Tuple) and len(t.elts) == len(v.elts) else [(t, v)]
+                for tt, vv in pairs:
+                    if isinstance(tt, ast.Name):
+                        binds.setdefault(tt.id, []).append(vv)
+
+        def registry(e, depth=0):
+            """is e (the container of a keyed read) a parameter / limit / per-phase value table?"""
+            if depth > 4:
+                return None
+            if isinstance(e, ast.Attribute) and e.attr in ("_params", "_limits"):
+                return e.attr
+            if isinstance(e, ast.Subscript) and isinstance(e.value, ast.Attribute) and e.value.attr == "_phase_lkup":
+                return "_phase_lkup[..]"
+            if isinstance(e, ast.Subscript) and isinstance(e.value, ast.Subscript) and isinstance(e.value.slice, ast.Constant) and e.value.slice.value == "phase_conf":
+                return "phase_conf[..]"
+            if isinstance(e, ast.Name) and len(binds.get(e.id, [])) == 1:
+                return registry(binds[e.id][0], depth + 1)
+            return None
+
+        def keyed_read(e):
+            if isinstance(e, ast.Subscript) and not isinstance(e.slice, ast.Slice):
+                if isinstance(e.slice, ast.Constant) and e.slice.value in BOOLEAN_KEYS:
+                    return None
+                return registry(e.value)
+            if isinstance(e, ast.Call) and isinstance(e.func, ast.Attribute) and e.func.attr == "get" and e.args:
+                if isinstance(e.args[0], ast.Constant) and e.args[0].value in BOOLEAN_KEYS:
+                    return None
+                return registry(e.func.value)
+            if isinstance(e, ast.Name) and len(binds.get(e.id, [])) == 1 and not isinstance(binds[e.id][0], ast.Name):
+                return keyed_read(binds[e.id][0])
+            return None
+        ok = True
+        for x in ast.walk(fn):
+            ops = []
+            if isinstance(x, ast.BoolOp):
+                ops = x.values
+            elif isinstance(x, ast.UnaryOp) and isinstance(x.op, ast.Not):
+                ops = [x.operand]
+            elif isinstance(x, (ast.If, ast.IfExp, ast.While)):
+                ops = [x.test]
+            elif isinstance(x, ast.comprehension):
+                ops = list(x.ifs)
+            for o in ops:
+                reg = keyed_read(o)
+                if reg:
+                    ok = False
+                    rep.violation("R5", "system.System.%s" % mname, "%s:%d" % (rel, o.lineno), "`%s` is used for its truth value: a configured 0 (in %s) is then reported as something else" % (ast.unparse(o)[:80], reg), "truth value of a configured number in " + mname)
+        rep.instance("R5", "System.%s never branches on the truth value of a configured number" % mname, "%s:%d" % (rel, fn.lineno), ok)
+        n += 1
+    if n < 4:
+        raise AnalysisError("configuration reports not found (%d of %d)" % (n, len(CONFIG_REPORTS)))
 
 
 def del_comp_reference(model, rep, r):
